@@ -157,7 +157,8 @@ def evaluate(case, env):
     outside_src = "".join("%s = %d\n" % (n, i) for i, n in enumerate(names[:5])) + "def outside_fn(alpha, beta=2):\n    return alpha + beta\nclass OutsideCls:\n    gamma = 1\n"
     files["main.py"] = files["main.py"] + "import outside_mod\nprint(outside_mod.alpha, outside_mod.outside_fn(1))\nimport outside_pkg\nprint(outside_pkg.alpha)\n"
     # a class whose attribute holds an instance of an OUT-OF-PROJECT class: MoveMethod towards it must stay inside the project
-    files["mover.py"] = "import outside_mod\nclass Owner:\n    def __init__(self):\n        self.helper = outside_mod.OutsideCls()\n        self.k = 2\n    def meth(self, x):\n        return x + self.k\n"
+    if not case.get("without_mover"):  # (replays recorded before this fixture existed carry without_mover)
+        files["mover.py"] = "import outside_mod\nclass Owner:\n    def __init__(self):\n        self.helper = outside_mod.OutsideCls()\n        self.k = 2\n    def meth(self, x):\n        return x + self.k\n"
     files["ignored/ign.py"] = "".join("%s = %d\n" % (n, i) for i, n in enumerate(names)) + "import m0\n"
     fsmodel.write_tree(root, files)
     fsmodel.write_tree(sibling, {"outside_mod.py": outside_src, "outside_pkg/": None, "outside_pkg/__init__.py": "alpha = 5\n"})
@@ -177,8 +178,7 @@ def evaluate(case, env):
             by_file.setdefault(t[0], []).append(t[1])
         paths = sorted(case["files"])
         # two fixed requests at the end: rename the out-of-project module / package from its import in main.py
-        fixed = [
-            ("move_method", "mover.py", files["mover.py"].index("meth"), 0, 0),
+        fixed = ([] if case.get("without_mover") else [("move_method", "mover.py", files["mover.py"].index("meth"), 0, 0)]) + [
             ("rename", "main.py", files["main.py"].rindex("outside_mod"), 0, 0),
             ("rename", "main.py", files["main.py"].rindex("outside_pkg"), 0, 0),
         ]
